@@ -39,15 +39,30 @@ class Disk(object):
         self.files = {}
 
 
+ROOT = '/simfs/'
+
+
 class SimRaw(io.RawIOBase):
-    def __init__(self, fs, path, mode):
+    def __init__(self, fs, path, mode, truncate=True, append=False):
         io.RawIOBase.__init__(self)
         self.fs, self.path, self.mode = fs, path, mode
         self.pos = 0
         self.dead = False
         self.last_write_start = None
+        self.append = append
         if 'w' in mode:
-            fs.disk.files[path] = bytearray()
+            if truncate or path not in fs.disk.files:
+                fs.disk.files[path] = bytearray()
+            if append:
+                self.pos = len(fs.disk.files[path])
+
+    def _put(self, data):
+        buf = self.fs.disk.files[self.path]
+        if self.append:
+            self.pos = len(buf)
+        self.last_write_start = self.pos
+        buf[self.pos:self.pos + len(data)] = data
+        self.pos += len(data)
 
     def readable(self):
         return 'r' in self.mode
@@ -70,7 +85,7 @@ class SimRaw(io.RawIOBase):
         if kind == 'crash':
             self.fs.plan.fired['crash'] += 1
             keep = int(d[1] * n) if len(d) > 1 else 0
-            self.fs.disk.files[self.path] += data[:keep]
+            self._put(data[:keep])
             self.dead = True
             self.fs.crashed = True
             raise SimCrash()
@@ -80,11 +95,9 @@ class SimRaw(io.RawIOBase):
         if kind == 'short' and n > 1:
             k = max(1, min(n - 1, int(d[1] * n)))
             self.fs.plan.fired['short_write'] += 1
-            self.last_write_start = len(self.fs.disk.files[self.path])
-            self.fs.disk.files[self.path] += data[:k]
+            self._put(data[:k])
             return k
-        self.last_write_start = len(self.fs.disk.files[self.path])
-        self.fs.disk.files[self.path] += data
+        self._put(data)
         return n
 
     def readinto(self, b):
@@ -112,7 +125,7 @@ class SimRaw(io.RawIOBase):
         if d[0] == 'err' and 'w' in self.mode:
             # deferred write error reported at close: the last accepted chunk never reached the medium
             self.fs.plan.fired['close_error'] += 1
-            if self.last_write_start is not None:
+            if self.last_write_start is not None and self.path in self.fs.disk.files:
                 del self.fs.disk.files[self.path][self.last_write_start:]
             raise OSError(d[1], os.strerror(d[1]))
 
@@ -126,20 +139,35 @@ class SimFS(object):
         self.crashed = False
 
     def open(self, file, mode='r', buffering=-1, encoding=None, errors=None, newline=None, closefd=True,
-             opener=None):
+             opener=None, _raw=None):
+        if hasattr(file, '__fspath__'):
+            file = os.fspath(file)
         if not isinstance(file, str):
             raise TypeError("simfs: path must be str, got %r" % type(file).__name__)
-        mode_ = mode.replace('t', '')
-        if mode_ not in ('r', 'w'):
+        binary = 'b' in mode
+        mode_ = mode.replace('t', '').replace('b', '')
+        if mode_ not in ('r', 'w', 'a', 'x'):
             raise ValueError("simfs: unsupported mode %r" % mode)
-        d = self.plan.next('open')
-        if d[0] == 'err':
-            self.plan.fired['open_error'] += 1
-            raise OSError(d[1], os.strerror(d[1]), file)
-        if mode_ == 'r' and file not in self.disk.files:
-            raise FileNotFoundError(_errno.ENOENT, os.strerror(_errno.ENOENT), file)
-        raw = SimRaw(self, file, mode_)
+        if _raw is None:
+            d = self.plan.next('open')
+            if d[0] == 'err':
+                self.plan.fired['open_error'] += 1
+                raise OSError(d[1], os.strerror(d[1]), file)
+            if mode_ == 'r' and file not in self.disk.files:
+                raise FileNotFoundError(_errno.ENOENT, os.strerror(_errno.ENOENT), file)
+            if mode_ == 'x' and file in self.disk.files:
+                raise FileExistsError(_errno.EEXIST, os.strerror(_errno.EEXIST), file)
+            raw = SimRaw(self, file, 'r' if mode_ == 'r' else 'w', truncate=mode_ in ('w', 'x'),
+                         append=mode_ == 'a')
+        else:
+            raw = _raw
+        if mode_ != 'r':
+            mode_ = 'w'
         bs = self.buffer_size if buffering in (-1, None) else max(1, buffering)
+        if binary:
+            if buffering == 0:
+                return raw
+            return io.BufferedWriter(raw, buffer_size=bs) if mode_ == 'w' else io.BufferedReader(raw, buffer_size=bs)
         if mode_ == 'w':
             buf = io.BufferedWriter(raw, buffer_size=bs)
             # builtin open(newline=None) writes os.linesep; the platform is a simulator knob
@@ -154,6 +182,123 @@ class SimFS(object):
         except Exception:
             pass
         return f
+
+    # ------------------------------------------------------------------
+    # interception of the other ways a library can reach a file: builtins.open, io.open,
+    # os.open / os.fdopen / os.write / os.close, os.path.exists, os.remove, os.rename, os.replace.
+    # Paths under /simfs/ (and simulated descriptors) go to the simulated disk, everything
+    # else to the real functions.
+    def install(self):
+        import builtins
+        fs = self
+        self._saved = {
+            'bopen': builtins.open, 'ioopen': io.open, 'osopen': os.open, 'fdopen': os.fdopen,
+            'oswrite': os.write, 'osclose': os.close, 'fsync': os.fsync, 'exists': os.path.exists,
+            'isfile': os.path.isfile, 'remove': os.remove, 'unlink': os.unlink, 'rename': os.rename,
+            'replace': os.replace, 'getsize': os.path.getsize,
+        }
+        sv = self._saved
+        self.fds = {}
+        self._next_fd = [1000000]
+
+        def is_sim(p):
+            try:
+                p = os.fspath(p)
+            except TypeError:
+                return False
+            return isinstance(p, str) and p.startswith(ROOT)
+
+        def _open(file, mode='r', *a, **kw):
+            if isinstance(file, int) and file in fs.fds:
+                return fs.open(fs.fds[file].path, mode, *a, _raw=fs.fds.pop(file), **kw)
+            if is_sim(file):
+                return fs.open(file, mode, *a, **kw)
+            return sv['bopen'](file, mode, *a, **kw)
+
+        def _osopen(path, flags, mode=0o777, *a, **kw):
+            if not is_sim(path):
+                return sv['osopen'](path, flags, mode, *a, **kw)
+            path = os.fspath(path)
+            d = fs.plan.next('open')
+            if d[0] == 'err':
+                fs.plan.fired['open_error'] += 1
+                raise OSError(d[1], os.strerror(d[1]), path)
+            acc = flags & (os.O_RDONLY | os.O_WRONLY | os.O_RDWR)
+            exists = path in fs.disk.files
+            if flags & os.O_CREAT:
+                if exists and flags & os.O_EXCL:
+                    raise FileExistsError(_errno.EEXIST, os.strerror(_errno.EEXIST), path)
+            elif not exists:
+                raise FileNotFoundError(_errno.ENOENT, os.strerror(_errno.ENOENT), path)
+            if acc == os.O_RDONLY:
+                raw = SimRaw(fs, path, 'r')
+            else:
+                raw = SimRaw(fs, path, 'w', truncate=bool(flags & os.O_TRUNC), append=bool(flags & os.O_APPEND))
+            fd = fs._next_fd[0]
+            fs._next_fd[0] += 1
+            fs.fds[fd] = raw
+            return fd
+
+        def _fdopen(fd, *a, **kw):
+            if fd in fs.fds:
+                return _open(fd, *a, **kw)
+            return sv['fdopen'](fd, *a, **kw)
+
+        def _oswrite(fd, data):
+            if fd in fs.fds:
+                return fs.fds[fd].write(data)
+            return sv['oswrite'](fd, data)
+
+        def _osclose(fd):
+            if fd in fs.fds:
+                return fs.fds.pop(fd).close()
+            return sv['osclose'](fd)
+
+        def _fsync(fd):
+            if fd in fs.fds:
+                return None
+            return sv['fsync'](fd)
+
+        def _exists(p):
+            return (os.fspath(p) in fs.disk.files) if is_sim(p) else sv['exists'](p)
+
+        def _isfile(p):
+            return (os.fspath(p) in fs.disk.files) if is_sim(p) else sv['isfile'](p)
+
+        def _getsize(p):
+            return len(fs.disk.files[os.fspath(p)]) if is_sim(p) else sv['getsize'](p)
+
+        def _remove(p, *a, **kw):
+            if is_sim(p):
+                if os.fspath(p) not in fs.disk.files:
+                    raise FileNotFoundError(_errno.ENOENT, os.strerror(_errno.ENOENT), p)
+                del fs.disk.files[os.fspath(p)]
+                return None
+            return sv['remove'](p, *a, **kw)
+
+        def _rename(a, b, *x, **kw):
+            if is_sim(a) or is_sim(b):
+                a, b = os.fspath(a), os.fspath(b)
+                if a not in fs.disk.files:
+                    raise FileNotFoundError(_errno.ENOENT, os.strerror(_errno.ENOENT), a)
+                fs.disk.files[b] = fs.disk.files.pop(a)
+                return None
+            return sv['rename'](a, b, *x, **kw)
+
+        builtins.open = _open
+        io.open = _open
+        os.open, os.fdopen, os.write, os.close, os.fsync = _osopen, _fdopen, _oswrite, _osclose, _fsync
+        os.path.exists, os.path.isfile, os.path.getsize = _exists, _isfile, _getsize
+        os.remove = os.unlink = _remove
+        os.rename = os.replace = _rename
+
+    def uninstall(self):
+        import builtins
+        sv = self._saved
+        builtins.open, io.open = sv['bopen'], sv['ioopen']
+        os.open, os.fdopen, os.write, os.close, os.fsync = sv['osopen'], sv['fdopen'], sv['oswrite'], sv['osclose'], sv['fsync']
+        os.path.exists, os.path.isfile, os.path.getsize = sv['exists'], sv['isfile'], sv['getsize']
+        os.remove, os.unlink, os.rename, os.replace = sv['remove'], sv['unlink'], sv['rename'], sv['replace']
 
     # direct (fault-free) access for the harness
     def put(self, path, data):
